@@ -4,11 +4,11 @@ package main
 // inlining, defers, lock discipline.
 
 import (
-	"os"
-	"sort"
 	"fmt"
 	"go/token"
 	"go/types"
+	"os"
+	"sort"
 	"strings"
 
 	"golang.org/x/tools/go/ssa"
@@ -648,6 +648,7 @@ func (fr *frame) applySpec(spec *FuncSpec, name string, pnames []string, args []
 	}
 	post := f.newEnv(spec.Pkg, st.heap, pre, vars, rvals)
 	post.atCallSite = true
+	assumedEnsures := false
 	for _, c := range spec.Ensures {
 		if !f.e.active(c.Tags) {
 			continue
@@ -661,6 +662,16 @@ func (fr *frame) applySpec(spec *FuncSpec, name string, pnames []string, args []
 			continue
 		}
 		f.assume(st, v, "ensures of "+sn+": "+c.Src)
+		assumedEnsures = true
+	}
+	if assumedEnsures && f.e.thorough && !f.dry && !spec.Extern {
+		// vacuity cover (thorough tier): the callee's postconditions, as assumed here, are consistent with
+		// what is known at this call - the code behind the call stays reachable
+		f.seq++
+		n := f.oblNames["cover:after-call:"+sn]
+		f.oblNames["cover:after-call:"+sn] = n + 1
+		f.obls = append(f.obls, &Obligation{Name: fmt.Sprintf("%s#cover:after-call:%s#%d", fnShortName(fr.fn), sn, n+1), Kind: "cover", Cover: true,
+			Src: "postconditions of " + sn + " satisfiable at the call", Line: spec.Line, Func: fr.fn.String(), seg: st.seg, seq: f.seq, goal: st.reach, f: f})
 	}
 	if !spec.Extern && !spec.IsCallSpec && !spec.Trusted {
 		f.usedSpecs[name] = true
@@ -956,6 +967,25 @@ func (fr *frame) appendBuiltin(cc *ssa.CallCommon, args []Val, st *bstate, rt ty
 		nh.obj = nb
 		st.heap = nh
 		f.exact["append"]++
+	} else if isScalarKind(kindOf(et)) && len(args) > 1 && kindOf(cc.Args[1].Type()) != KString {
+		// append(s, t...) with a slice of unknown length: the new backing array agrees with s's below the old
+		// length and holds t's elements, in order, behind it (stated with a quantifier over a fresh array)
+		key := f.elemKey(nb, et)
+		arr := f.hs.read(st.heap, key)
+		srcKey := f.elemKey(f.sliceBase(s.Tm), et)
+		oldContent := app("select", f.hs.read(st.heap, srcKey), f.sliceBase(s.Tm))
+		roff := ite(eq(s.Tm, "0"), "0", off)
+		t := args[1]
+		tk := f.elemKey(f.sliceBase(t.Tm), et)
+		tContent := app("select", f.hs.read(st.heap, tk), f.sliceBase(t.Tm))
+		ac := f.c.freshConst("appended", "(Array Int "+sortOfType(et)+")")
+		start := app("+", roff, oldLen)
+		f.assume(st, "(forall ((j Int)) (=> (and (<= 0 j) (< j "+addLen+")) (= (select "+ac+" (+ "+start+" j)) (select "+tContent+" (+ "+f.sliceOff(t.Tm)+" j)))))", "append(s, t...): the appended elements are t's, in order")
+		f.assume(st, "(forall ((j Int)) (=> (< j "+start+") (= (select "+ac+" j) (select "+oldContent+" j))))", "append(s, t...): the elements of s are kept")
+		nh := f.hs.write(st.heap, key, f.c.define("Hw."+key, f.hs.sorts[key], app("store", arr, nb, ac)))
+		nh.obj = nb
+		st.heap = nh
+		f.exact["append-slice"]++
 	} else {
 		f.abstr["append-contents"]++
 	}
@@ -1345,6 +1375,7 @@ func (fr *frame) noteGo(x *ssa.Go, st *bstate) {
 		f.oblige(st, fmt.Sprintf("%s#go:%s:requires:%s", fnShortName(fr.fn), shortCallee(callee.String()), clauseLabel(r)), "call-requires", r.Tags, v, r.Src, r.Line)
 	}
 }
+
 // Sweep kind "cancel": every wait on a channel can be ended from outside. A blocking
 // select must have a case on the Done() channel of the function's context parameter
 // (when it has one), or else on some context's Done() or a timer; a bare blocking
@@ -2203,9 +2234,9 @@ func (fr *frame) siteOrdinal(callee string, site ssa.Instruction) int {
 
 type transientIns struct {
 	reach, m, k, dk, label, pos string
-	tags                      []string
-	addr                      Val // address of the map field
-	mt                        types.Type
+	tags                        []string
+	addr                        Val // address of the map field
+	mt                          types.Type
 }
 
 func (fr *frame) noteTransient(x *ssa.MapUpdate, st *bstate, m, k, dk string) {
@@ -2236,6 +2267,9 @@ func (fr *frame) noteTransient(x *ssa.MapUpdate, st *bstate, m, k, dk string) {
 			if f.fn.Name() == ex {
 				skip = true // the registering function itself; its callers are checked (it is inlined there)
 			}
+		}
+		if f.fn.Parent() == nil && f.e.specFor(f.fn) == nil && inlinableStatic(f.fn) && !f.e.knownFunction(f.fn.String()) {
+			skip = true // a helper that is new since the contracts were written: it is inlined at its callers, which are checked
 		}
 		if skip {
 			continue
@@ -2310,7 +2344,7 @@ func (fr *frame) sendOrdinal(site ssa.Instruction) int {
 	return 0
 }
 
-func (fr *frame) beforeSendAsserts(site ssa.Instruction, st *bstate, taken string) {
+func (fr *frame) beforeSendAsserts(site ssa.Instruction, st *bstate, taken string, chv, valv ssa.Value) {
 	f := fr.f
 	if fr.spec == nil || len(fr.spec.Before) == 0 || f.dry {
 		return
@@ -2322,6 +2356,19 @@ func (fr *frame) beforeSendAsserts(site ssa.Instruction, st *bstate, taken strin
 		ba.C.used = true
 		env := fr.specEnv(st.heap, fr.oldHeap, nil)
 		env.addVars(fr.localEnvAtInstr(site, st.heap))
+		// sendch / sendval: the channel sent on and the value sent
+		sv := map[string]Val{}
+		if chv != nil {
+			if v, ok := fr.valOK(chv); ok {
+				sv["sendch"] = v
+			}
+		}
+		if valv != nil {
+			if v, ok := fr.valOK(valv); ok {
+				sv["sendval"] = v
+			}
+		}
+		env.addVars(sv)
 		v, err := env.evalBool(ba.C.E)
 		if err != nil {
 			f.fail("%s: before call send: %v", ba.C.Line, err)
@@ -2516,9 +2563,9 @@ func (fr *frame) outerBeforeAsserts(cc *ssa.CallCommon, st *bstate, site ssa.Ins
 // in a variable, captured by a closure, returned - the lock must still be held at that point,
 // otherwise whoever uses it afterwards does so outside the critical section.
 type guardedRef struct {
-	lockAddr    string
+	lockAddr     string
 	tname, fname string
-	tags        []string
+	tags         []string
 }
 
 func (fr *frame) checkGuardedMapEscape(x *ssa.UnOp, st *bstate) {
